@@ -372,7 +372,7 @@ func TestConfigPoints(t *testing.T) {
 	if evid.ReplayPath() != "" {
 		t.Skip()
 	}
-	evid.Check(t, "config-points", evid.Scale(4000, 160000), prop)
+	evid.Check(t, "config-points", evid.Scale(10000, 400000), prop)
 }
 
 func TestReplay(t *testing.T) {
